@@ -16,8 +16,9 @@ import (
 	"math/rand"
 	"os"
 	"path/filepath"
-	"strings"
 	"runtime"
+	"sort"
+	"strings"
 	"sync"
 	"sync/atomic"
 	"time"
@@ -500,6 +501,31 @@ func runC06c(seed int64, tier string, sc *Script) map[string]any {
 	if tier == "thorough" {
 		races = 4000
 	}
+	v := tagDeleteRace(ctx, tmp, seed, races, false)
+	ops += races
+	// Push racing Delete of the same manifest: one of the two sequential orders explains
+	// what both calls returned and what the store says afterwards
+	pdRounds := 150
+	if tier == "thorough" {
+		pdRounds = 1500
+	}
+	sc.Case("push-races-delete oci")
+	sc.NonTrivial()
+	sc.Op(pushDeleteRace(ctx, tmp, pdRounds), "s pushdelrace rounds=%d", pdRounds)
+	ops += pdRounds
+	sc.Case("tag-races-delete oci")
+	sc.NonTrivial()
+	sc.Op(v, "s tagrace rounds=%d", races)
+	sc.Extra["evaluations"] = ops
+	return nil
+}
+
+// tagDeleteRace: Tag racing Delete on an OCI layout.  With checkDisk the directory is
+// validated after every round and a store opened on it must know the same names.
+func tagDeleteRace(ctx context.Context, tmp string, seed int64, races int, checkDisk bool) string {
+	// Tag racing Delete on an OCI layout: whatever the interleaving, afterwards a reference
+	// that resolves names content that exists (Tag then Delete leaves no tag; Delete then Tag is
+	// refused with not-found)
 	rrng := rand.New(rand.NewSource(seed))
 	bad := ""
 	for ri := 0; ri < races && bad == ""; ri++ {
@@ -570,16 +596,28 @@ func runC06c(seed int64, tier string, sc *Script) map[string]any {
 				break
 			}
 		}
+		if checkDisk && bad == "" {
+			if !o.AutoSaveIndex {
+				o.SaveIndex() // (the spinning rounds keep the index in memory)
+			}
+			if v := validateLayout(dir); v != "ok" {
+				bad = fmt.Sprintf("round-%d:%s", ri, v)
+			} else if s2, err := oci.New(dir); err != nil {
+				bad = fmt.Sprintf("round-%d:reopen-failed", ri)
+			} else {
+				var t2 []string
+				s2.Tags(ctx, "", func(ts []string) error { t2 = append(t2, ts...); return nil })
+				sort.Strings(tags)
+				sort.Strings(t2)
+				if strings.Join(tags, ",") != strings.Join(t2, ",") {
+					bad = fmt.Sprintf("round-%d:reopened-store-knows-other-names(live=%d,disk=%d)", ri, len(tags), len(t2))
+				}
+			}
+		}
 		os.RemoveAll(dir)
-		ops++
 	}
-	v := "consistent"
 	if bad != "" {
-		v = bad
+		return bad
 	}
-	sc.Case("tag-races-delete oci")
-	sc.NonTrivial()
-	sc.Op(v, "s tagrace rounds=%d", races)
-	sc.Extra["evaluations"] = ops
-	return nil
+	return "consistent"
 }
